@@ -24,7 +24,7 @@ Theorem C08_project_refuted : ~ C08_project_full.
 Proof. exact project_full_sem_refuted. Qed.
 Print Assumptions C08_project_refuted.
 
-(* known finding C08/omit-none-wide-union: vals_ok (field nullable as is_field_nullable sees it, K16)
+(* known finding C08/omit-none-wide-union: vals_ok (field nullable as is_field_nullable sees it, K17)
    is narrower than vals_sem (the type admits None): Union[int, str, None] holding None keeps its key
    under omit_none, while Annotated[Final[Optional[...]]] is handled *)
 Theorem C08_wide_union_refuted :
